@@ -163,3 +163,31 @@ void nni_aio_set_expire(nni_aio *aio, nni_time when)
 	g_sv.set_expire_when = when;
 }
 #endif
+
+#if defined(VP_SV_LIST_STUBS) && !defined(VP_SV_LIST_STUBS_DONE)
+#define VP_SV_LIST_STUBS_DONE
+/* ---- generic nni_list operations on the two ghost queues of env_proto.h ----
+ * respond.c / survey.c keep contexts, pipes and aios on nni_lists.  A list is
+ * modelled by one of the two ghost queues (count + head + last appended), the
+ * items are opaque pointers.  Limits (asserted): only the head or the last
+ * appended item can be removed; per unit at most two lists, holding items of
+ * different kinds (so an item is never on both). */
+void nni_list_append(nni_list *l, void *item) { nni_aio_list_append(l, (nni_aio *) item); }
+void nni_list_remove(nni_list *l, void *item)
+{
+	vp_aioq *q = vp_which(l);
+	__CPROVER_assert(vp_on(q, (nni_aio *) item), "list remove: item is a tracked member (head / last appended) of that list");
+	nni_aio_list_remove((nni_aio *) item);
+}
+int nni_list_active(nni_list *l, void *item)
+{
+	vp_aioq *q = vp_which(l);
+	if (vp_on(q, (nni_aio *) item)) {
+		return (1);
+	}
+	if ((nni_aio *) item == g_last_app) {
+		return (0);
+	}
+	return (g_aio_active); /* an untracked middle member, or not a member: arbitrary */
+}
+#endif
